@@ -905,7 +905,7 @@ func subset(r *rand.Rand, n int) string {
 func c18Gen(r *rand.Rand, tier string) []string {
 	rounds := 5
 	if tier == "thorough" {
-		rounds = 900
+		rounds = 700
 	}
 	var out []string
 	val := func() string { return strconv.Itoa(r.Intn(90) + 1) }
